@@ -18,7 +18,8 @@ CLAIMED = {
               "its argument for every string (inductive loop invariant over a recursive encoded-length spec function); encError and the HttpBody codec contain no reachable panic "
               "(they answer with a plain-text fallback when the status cannot be marshalled); serveGRPC has no reachable panic (a status whose details cannot be marshalled is sent without them); "
               "the HTTP status written by encError is the mapped status of the error's code on both the Twirp and the negotiated path; twirpCodeName is exactly the Twirp table for codes 1..16 and never empty, "
-              "and encError passes it the status code; the codec picked for the error body is never nil under the registry invariant OffersOk."),
+              "and encError passes it the status code; the codec picked for the error body is never nil under the registry invariant OffersOk; "
+              "the WebSocket close frame carries the mapped close code and, as its reason, the longest prefix of the status message that fits in 123 bytes and ends between two characters."),
         note=TRUST + "Not decided: what grpc-go / Twirp / WebSocket clients decode; OffersOk is a precondition of encError (NewMux offers exactly the registry keys, the JSON default is assumed registered).",
         ref="DESIGN.md section 5 C05"),
 }
